@@ -432,6 +432,14 @@ def runner_stage(ctx, name):
         ctx.cov["build_error"] = e.log[-1500:]
         ctx.violation(f"model/extraction for {name} no longer builds: {e.what}",
                       {"obligation": f"extract/{name}.vo + runner", "log_tail": e.log[-1500:]}, found_input=False)
+        # the search for a concrete failing input goes on with the last model that did build (if any):
+        # violations found that way are judged on the implementation by the property's own oracle
+        exe = os.path.join(BIN, name)
+        if os.path.exists(exe):
+            ctx.cov["stale_runner"] = f"bin/{name}: last successfully built model, used only to search for a failing input"
+            r = Runner.__new__(Runner)
+            r.exe = exe
+            return r
         return None
 
 
